@@ -319,6 +319,7 @@ def conc_configs(draw, tier):
             "fail_run": draw(st.one_of(st.none(), st.none(), st.integers(1, 2))),
             "small_value": draw(st.sampled_from([False, False, True, "nocompare"])),
             "falsy_instance": draw(st.sampled_from([False, False, True])),
+            "shared_mutex": draw(st.sampled_from([False, False, True])),
             "cancel": list(cancel) if cancel else None, "exc": draw(st.sampled_from(sorted(GETTER_ERRORS))),
             "choices": draw(st.lists(st.integers(0, 4), max_size=40))}
 
@@ -333,6 +334,20 @@ def run_conc(case, choices=None, default="rr"):
     problems = []
     LockT = lock_type(ctx, "plock", suspend_uncontended=case["lock_susp"],
                       release_susp=case.get("lock_release_susp", False))
+    if case.get("shared_mutex"):
+        # a lock TYPE whose instances all stand for one and the same mutex (a process-wide lock, a named lock of a
+        # lock service): whoever holds "a" lock of this type holds them all
+        from ..driver import Lock
+
+        one = Lock(ctx, "the-one-mutex", suspend_uncontended=case["lock_susp"],
+                   release_susp=case.get("lock_release_susp", False))
+
+        class LockT:  # noqa: F811
+            async def __aenter__(self):
+                return await one.__aenter__()
+
+            async def __aexit__(self, *exc):
+                return await one.__aexit__(*exc)
 
     async def getter(self):
         rec = ["running", None, ctx.current_task]
